@@ -71,7 +71,7 @@ Theorem C14_follow_spec :
     string_in (event_type ev) default_triggers = true ->
     wait_match w ev = true -> is_bot_stop ev = false ->
     next_steps fuel p (hist ++ [ev]) =
-    match resume (p_subs p) fuel c [] k stk with
+    match resume (all_flows p) fuel c [] k stk with
     | XWait w' _ _ _ u' => Ok ((match u' with [] => [] | _ => [OCtx u'] end) ++
                               (if actionable w' then [step_of_wait w'] else []))
     | XEnd _ u' => Ok (match u' with [] => [] | _ => [OCtx u'] end)
